@@ -189,6 +189,7 @@ counted_array!(pub static ARGS: [ArgInfo<ArgData>; _] = [
     flag!("--coverage", Coverage),
     take_arg!("--param", OsString, Separated, PassThrough),
     flag!("--save-temps", TooHardFlag),
+    take_arg!("--save-temps=", OsString, Concatenated, TooHard),
     take_arg!("--serialize-diagnostics", PathBuf, Separated, SerializeDiagnostics),
     take_arg!("--sysroot", PathBuf, Separated, PassThroughPath),
     take_arg!("-A", OsString, Separated, PassThrough),
@@ -217,10 +218,12 @@ counted_array!(pub static ARGS: [ArgInfo<ArgData>; _] = [
     take_arg!("-Xlinker", OsString, Separated, PassThrough),
     take_arg!("-Xpreprocessor", OsString, Separated, PreprocessorArgument),
     take_arg!(ARCH_FLAG, OsString, Separated, Arch),
-    take_arg!("-aux-info", OsString, Separated, PassThrough),
+    take_arg!("-aux-info", OsString, Separated, TooHard),
     take_arg!("-b", OsString, Separated, PassThrough),
     flag!("-c", DoCompilation),
+    take_arg!("-fcallgraph-info", OsString, Concatenated, TooHard),
     take_arg!("-fdiagnostics-color", OsString, Concatenated('='), DiagnosticsColor),
+    take_arg!("-fdump-", OsString, Concatenated, TooHard),
     flag!("-fno-diagnostics-color", NoDiagnosticsColorFlag),
     flag!("-fno-profile-generate", TooHardFlag),
     flag!("-fno-profile-use", TooHardFlag),
@@ -230,6 +233,8 @@ counted_array!(pub static ARGS: [ArgInfo<ArgData>; _] = [
     flag!("-fprofile-generate", ProfileGenerate),
     take_arg!("-fprofile-use", OsString, Concatenated, TooHard),
     flag!("-frepo", TooHardFlag),
+    take_arg!("-fsave-optimization-record", OsString, Concatenated, TooHard),
+    flag!("-fstack-usage", TooHardFlag),
     flag!("-fsyntax-only", TooHardFlag),
     flag!("-ftest-coverage", TestCoverage),
     flag!("-fworking-directory", PreprocessorArgumentFlag),
@@ -255,6 +260,7 @@ counted_array!(pub static ARGS: [ArgInfo<ArgData>; _] = [
     flag!("-pedantic-errors", PedanticFlag),
     flag!("-remap", PreprocessorArgumentFlag),
     flag!("-save-temps", TooHardFlag),
+    take_arg!("-save-temps=", OsString, Concatenated, TooHard),
     take_arg!("-std", OsString, Concatenated('='), Standard),
     take_arg!("-stdlib", OsString, Concatenated('='), PreprocessorArgument),
     flag!("-trigraphs", PreprocessorArgumentFlag),
